@@ -43,7 +43,7 @@ def make_task():
     from redun import task
 
     @task(name="c04_make", namespace="verif_c04", version="1")
-    def c04_make(spec):
+    def c04_make(spec, wrap=0):
         from redun.file import File
         cls = fv.classes()
         EXEC_LOG.append(1)
@@ -60,10 +60,32 @@ def make_task():
                 out.append(cls[s[1]][2](fv.render_d(s[2])))
             else:
                 out.append(s[1])
-        return out
+        return wrap_result(out, wrap)
 
     _task = c04_make
     return _task
+
+
+def wrap_result(out, wrap):
+    """nest the task's outputs in the returned value (leaf order is kept, so validity is unaffected)"""
+    if wrap == 1:
+        return {"k": out}
+    if wrap == 2:
+        return [out[:1], {"rest": tuple(out[1:])}, 7]
+    return out
+
+
+def unwrap_result(res, wrap):
+    if wrap == 1:
+        return res["k"]
+    if wrap == 2:
+        return list(res[0]) + list(res[1]["rest"])
+    return res
+
+
+def swapped(data):
+    """different bytes of the same length"""
+    return bytes(b ^ 1 for b in data)
 
 
 def spec_files(s):
@@ -153,9 +175,14 @@ class HistGen:
         ops = [("run",)]
         for _ in range(r.randint(3, 9)):
             k = r.random()
-            if k < 0.42:
+            if k < 0.40:
                 ops.append(("run",))
-            elif k < 0.55:
+            elif k < 0.47:
+                if ops[-1][0] != "run":
+                    ops.append(("run",))
+                ops.append(("swap", r.choice(files)))       # same length, same mtime, other bytes
+                ops.append(("run",))
+            elif k < 0.57:
                 ops.append(("remove", r.choice(files)))
             elif k < 0.68:
                 ops.append(("write", r.choice(files), r.choice(fv.DATA), r.choice(fv.TIMES + [None])))   # rewrite / truncate
@@ -175,7 +202,7 @@ class HistGen:
         return ops
 
 
-def run_history(spec, ops):
+def run_history(spec, ops, wrap=0):
     """Run a history on the real Scheduler in a fresh temp dir.
     Returns dict(ops concrete, codes, execs, files (final snapshot), facts per run for the oracle)."""
     from redun import Scheduler
@@ -213,7 +240,7 @@ def run_history(spec, ops):
                                     "missing": not any(fv.in_scope(tgt[1], p) for p in fv.all_files(()))})
                 err = None
                 try:
-                    res = s.run(task(spec))
+                    res = unwrap_result(s.run(task(spec, wrap)), wrap)
                     executed = len(EXEC_LOG) > before
                     code = 1 if executed else 0
                 except FileNotFoundError as e:
@@ -267,8 +294,20 @@ def run_history(spec, ops):
                 elif o[0] == "rmtree":
                     shutil.rmtree(fv.render_d(o[1]), ignore_errors=True)
                     conc.append(o)
+                elif o[0] == "swap":
+                    # rewrite with other bytes of the same length, then restore the previous mtime (cp -p / utime)
+                    path = fv.render_f(o[1])
+                    if not os.path.isfile(path) or os.path.getsize(path) == 0:
+                        continue
+                    st = os.stat(path)
+                    with open(path, "rb") as f:
+                        old = f.read()
+                    with open(path, "wb") as f:
+                        f.write(swapped(old))
+                    os.utime(path, ns=(st.st_atime_ns, st.st_mtime_ns))
+                    conc.append(("write", o[1], swapped(old), tick(o[1])))
                 codes.append(3)
-        return {"spec": spec, "abstract": ops, "ops": conc, "codes": codes, "execs": len(EXEC_LOG) - n0,
+        return {"spec": spec, "wrap": wrap, "abstract": ops, "ops": conc, "codes": codes, "execs": len(EXEC_LOG) - n0,
                 "files": fv.snapshot(), "facts": facts}
 
 
@@ -355,6 +394,19 @@ def nested_case(rng, variant, handle_cls):
         files = [w.kinds[i][1][1] for i in usable if w.kinds[i][1][0] == "file"]
         for _ in range(rng.randint(0, 4)):
             k = rng.random()
+            if k < 0.15 and files:
+                # other bytes of the same length, previous mtime restored
+                p = rng.choice(files)
+                path = fv.render_f(p)
+                if os.path.isfile(path) and os.path.getsize(path) > 0:
+                    st = os.stat(path)
+                    with open(path, "rb") as f:
+                        old = f.read()
+                    with open(path, "wb") as f:
+                        f.write(swapped(old))
+                    os.utime(path, ns=(st.st_atime_ns, st.st_mtime_ns))
+                    conc.append(("xwrite", p, swapped(old), w.tick(p)))
+                continue
             if k < 0.45 and files:
                 o = rng.choice([("xremove", rng.choice(files)), ("xwrite", rng.choice(files), rng.choice(fv.DATA), None),
                                 ("xtouch", rng.choice(files), rng.choice(fv.TIMES))])
@@ -437,24 +489,30 @@ class Check(PropertyCheck):
             for line in corpus.read_text().splitlines():
                 if line.strip():
                     d = json.loads(line)
-                    todo.append(("corpus", eval(d["spec"]), eval(d["ops"])))
+                    todo.append(("corpus", eval(d["spec"]), eval(d["ops"]), int(d.get("wrap", 0))))
         p = ((0,), 0)
         for fam in fv.FAMS:        # small scope: every class, delete / alter / recreate, directory membership
-            todo.append(("scripted", [("file", fam, p, b"a")],
-                         [("run",), ("run",), ("remove", p), ("run",), ("run",), ("write", p, b"bb", None), ("run",),
-                          ("write", p, b"a", 5), ("run",), ("touch", p, 6), ("run",), ("run",)]))
+            todo.append(("scripted", [("file", fam, p, b"ab")],
+                         [("run",), ("swap", p), ("run",), ("run",), ("remove", p), ("run",), ("run",),
+                          ("write", p, b"bb", None), ("run",),
+                          ("write", p, b"a", 5), ("run",), ("touch", p, 6), ("run",), ("run",), ("swap", p), ("run",),
+                          ("run",)]))
             for shape in ("dir", "set"):
                 files = ((p, b"a"), (((0, 2), 1), b"b"))
                 sp = ("dir", fam, (0,), files) if shape == "dir" else ("set", fam, (0,), True, files)
                 todo.append(("scripted", [sp, ("plain", 7)],
-                             [("run",), ("run",), ("remove", p), ("run",), ("write", ((0,), 2), b"new", None), ("run",),
-                              ("run",), ("touch", p, 6), ("run",), ("rmtree", (0,)), ("run",), ("run",)]))
+                             [("run",), ("swap", p), ("run",), ("run",), ("remove", p), ("run",),
+                              ("write", ((0,), 2), b"new", None), ("run",),
+                              ("run",), ("touch", p, 6), ("run",), ("swap", p), ("run",), ("rmtree", (0,)), ("run",),
+                              ("run",), ("swap", ((0, 2), 1)), ("run",)]))
         for _ in range(n):
             sp = g.spec()
             todo.append(("random", sp, g.history(sp)))
+        todo = [t if len(t) == 4 else t + (i % 3,) for i, t in enumerate(todo)]     # bare and nested results
         self.hruns = []
-        for kind, sp, ops in todo:
-            run = run_history(sp, ops)
+        for kind, sp, ops, wrap in todo:
+            run = run_history(sp, ops, wrap)
+            self.stat("result_nesting", {0: "list of outputs", 1: "dict of list", 2: "list/dict/tuple mix"}[wrap])
             run["kind"] = kind
             self.hruns.append(run)
             for s in sp:
@@ -548,7 +606,7 @@ class Check(PropertyCheck):
                 keys.add(key)
                 upto = [i for i, o in enumerate(run["abstract"]) if o[0] == "run"][idx]
                 self.findings.append(Finding(key, what, {"kind": "history", "spec": repr(run["spec"]),
-                                                         "ops": repr(run["abstract"][:upto + 1]), "run": idx, "what": what}))
+                                                         "wrap": run.get("wrap", 0), "ops": repr(run["abstract"][:upto + 1]), "run": idx, "what": what}))
         self.evaluations += nruns
         self.stat("oracle", "histories", len(hruns) + 1)
         self.stat("oracle", "runs_judged", nruns)
@@ -562,7 +620,7 @@ class Check(PropertyCheck):
     def replay(self, doc):
         r = doc.get("replay", {})
         if r.get("kind") == "history":
-            run = run_history(eval(r["spec"]), eval(r["ops"]))
+            run = run_history(eval(r["spec"]), eval(r["ops"]), int(r.get("wrap", 0)))
             for o, c in zip(run["abstract"], run["codes"]):
                 print("  ", o, "->", {0: "replayed", 1: "executed", 2: "raised FileNotFoundError", 3: ""}.get(c, c))
             bad = self.judge(run)
